@@ -530,3 +530,37 @@ Proof.
   assert (E : strip (c :: r) = (O, O)) by (unfold strip; rewrite Hq, Hb; reflexivity).
   split; [exact E|]. unfold inner. rewrite E. cbn [fst snd skipn]. rewrite !Nat.sub_0_r. apply firstn_all.
 Qed.
+
+(* ================================================================== get_open_tag as an equation, every string *)
+(* the ContextTag of a scanner event: a closing tag carries no attributes *)
+Definition ctx_of_event (code : str) (e : event) : context_tag :=
+  mkCtxTag (ev_name e) (ev_type e) (ev_start e) (ev_end e)
+           (match ev_type e with
+            | EClose => None
+            | _ => Some (get_attributes code (ev_start e) (ev_end e) (ev_name e))
+            end).
+Definition hits (pos : Z) (e : event) : bool := strictly_in (ev_start e) pos (ev_end e).
+
+Theorem get_open_tag_of_eq (code : str) (evs : list event) (lo : N) (pos : Z) :
+  events_ordered lo evs ->
+  get_open_tag_of code (evs, None) pos = Ok (option_map (ctx_of_event code) (find (hits pos) evs)).
+Proof.
+  intros Hord. unfold get_open_tag_of, after_scan. cbn [fst snd].
+  destruct (find (hits pos) evs) as [e|] eqn:Ef.
+  - apply find_some in Ef. destruct Ef as [Hin Hhit]. unfold hits in Hhit.
+    rewrite (open_tag_go_complete pos evs lo e Hord Hin Hhit). reflexivity.
+  - destruct (open_tag_go pos evs) as [[e|]|] eqn:Eo; try reflexivity.
+    apply open_tag_go_sound in Eo. destruct Eo as [Hin Hhit].
+    pose proof (find_none _ _ Ef e Hin) as Hn. unfold hits in Hn. congruence.
+Qed.
+
+Theorem get_open_tag_eq (code : str) (pos : Z) :
+  get_open_tag code pos =
+  Ok (option_map (ctx_of_event code) (find (hits pos) (fst (scan (o_special default_opts) code)))).
+Proof.
+  unfold get_open_tag.
+  destruct (scan_events_wf (o_special default_opts) code) as [_ Hord].
+  pose proof (scan_no_internal_error (o_special default_opts) code) as Herr.
+  destruct (scan (o_special default_opts) code) as [evs err]. cbn [fst snd] in *. subst err.
+  eapply get_open_tag_of_eq. exact Hord.
+Qed.
